@@ -22,7 +22,7 @@ LEVEL_TEXT = ("Seeded stateful exploration of log-edit histories on really simul
               "and the insert/remove round trip are checked after every operation.")
 LEVEL_NOTE = "Trusted: log_lengths() enumerates every per-step log attribute of the model; sampling evidence only."
 PROBES = ["op_insert", "op_remove", "insert_step0", "insert_beyond_end", "insert_duplicate_in_list", "insert_already_present",
-          "roundtrip_checked", "multi_insert_roundtrip_checked", "with_subproject_task", "with_facilities", "remove_with_beyond_end", "result_of_backward_simulation"]
+          "roundtrip_checked", "multi_insert_roundtrip_checked", "with_subproject_task", "with_facilities", "remove_with_beyond_end", "result_of_backward_simulation", "result_made_in_two_legs"]
 
 
 def budget(tier):
@@ -71,10 +71,20 @@ def gen(rng, tier):
     spec["ops"] = ops
     if rng.random() < 0.15:
         spec["backward"] = {"due": rng.random() < 0.3, "reverse": rng.random() < 0.8}  # the edited result comes from a backward simulation
+    elif spec.get("sub") is None and rng.random() < 0.12:
+        # an absence-free result made in two legs: cut off at step k under a calendar whose absence steps all lie at or after k,
+        # then continued (state and logs kept) without any absence step
+        k = rng.randint(1, 8)
+        spec["legs"] = {"k": k, "extra": sorted(set(k + rng.randint(0, 8) for _ in range(rng.randint(1, 3))))}
+        spec["cfg"]["absence"] = []
     return spec
 
 
 def extra_candidates(spec):
+    if spec.get("legs") is not None:
+        c = dict(spec)
+        c.pop("legs")
+        yield c
     if spec.get("backward") is not None:
         c = dict(spec)
         c.pop("backward")
@@ -150,6 +160,11 @@ def run(spec):
     if spec.get("backward") is not None:
         res.count("result_of_backward_simulation")
         rec, out = scen.simulate(p, spec["cfg"], want_snap=False, backward=spec["backward"])
+    elif spec.get("legs") is not None and spec["legs"]["k"] < spec["cfg"].get("max_time", 0) and not spec["cfg"].get("absence"):
+        res.count("result_made_in_two_legs")
+        rec, out = scen.simulate(p, dict(spec["cfg"], max_time=spec["legs"]["k"], absence=list(spec["legs"]["extra"])), want_snap=False)
+        if out.ok:
+            rec, out = scen.simulate(p, dict(spec["cfg"], init_state=False, init_log=False), want_snap=False)
     else:
         rec, out = scen.simulate(p, spec["cfg"], want_snap=False)
     res.steps = rec.n_recorded
